@@ -35,6 +35,7 @@ fn main() {
         "C08" => drive(&props::c08::C08, tier, seed, replay),
         "C10" => drive(&props::c10::C10, tier, seed, replay),
         "C09" => drive(&props::c09::C09, tier, seed, replay),
+        "C11" => drive(&props::c11::C11, tier, seed, replay),
         "C12" => drive(&props::c12::C12, tier, seed, replay),
         "C13" => drive(&props::c13::C13, tier, seed, replay),
         "C14" => drive(&props::c14::C14, tier, seed, replay),
